@@ -121,8 +121,8 @@ class Runner:
     def new(self, vm=0, **kw):
         return self.cmd(dict(op="new", vm=vm, **kw))
 
-    def run(self, sqf, vm=0, **kw):
-        return self.cmd(dict(op="run", vm=vm, sqf=sqf, **kw))
+    def run(self, sqf, vm=0, timeout=None, **kw):
+        return self.cmd(dict(op="run", vm=vm, sqf=sqf, **kw), timeout=timeout)
 
     def asm(self, sqf, vm=0, **kw):
         return self.cmd(dict(op="asm", vm=vm, sqf=sqf, **kw))
